@@ -18,6 +18,7 @@ def short(c):
     if op=='deliver': return "D%d%s"%(c['b'],'o' if c.get('orphan') else 'e' if c.get('err') else '')
     if op=='vote': return "V%d(%s)"%(c['i'],c['r'])
     if op=='tick': return "T%d"%c['t']
+    if op=='restart': return "RESTART"
     return op
 for k,(n,o) in sorted(best.items()):
     print(cnt[k],k,"len",n); print('   ',o['desc'][:400].replace('\n',' | '))
